@@ -81,40 +81,39 @@ SPEC = {
     'assumptions': ['sequence-number ranges end below 2^64-1 in the harness (the model returns Spin for the non-terminating corner, F19)',
                     'cycles: honest oracles read the same destination within a cycle (it moves between cycles only), every committed message is '
                     'readable, no token data, nothing costly, everything fits the report limits, fewer than 1000 commit reports inside the window'],
-    'level_text': 'Proof (function level): Coq theorems over the executable model of computeRanges, groupByChainSelector, '
-                  'filterOutExecutedMessages and getPendingExecutedReports, with executed lists in closed form (runs): see Props/C09.v. '
-                  'Correspondence: the three functions against the model and against an independent interval-arithmetic specification every run. '
-                  'Cycle level: C09_never_reexecuted_cycle composes the pending filter with the C08 report builder (a message executed when the '
-                  'cycle started is not eligible for that cycle\'s report). Liveness is PARTIAL and per round: C07_*_complete for the two merge rounds, '
-                  'C09_liveness_filter_round_all_ready / _partial for the Filter round (a provable commit report whose all-ready chain report fits the '
-                  'budget gets a chain report with every eligible nonce-0 message); not proved: that honest readers yield f+1 identical observations, '
-                  'broken nonce chains, the greedy fallback. The history-level reading (never-reexecuted, pending-exact, one-cycle inclusion) is '
-                  'monitored on real four-oracle histories under same-view / everything-ready conditions. '
-                  'History level (Model/ExecCycles.v, Proofs/ExecCyclesP.v; state = destination content, events = tick | commit | executions '
-                  'visible | readiness | curses | roles | cycle with what lands at once), proved by induction over event lists for EVERY history: '
-                  'C09_hist_cycle_memoryless (the observation of a cycle is a function of the destination\'s content when it starts), '
-                  'C09_hist_filter_total + C09_hist_pending_exact (for every legal shape of the reader\'s executed-range answer the pending filter '
-                  'succeeds and yields exactly the committed reports inside the window with an unexecuted message, each recording executed set '
-                  '/\\ interval), C09_hist_candidates (closed form of the report\'s candidate set), C09_hist_never_reexecuted (a message executed at '
-                  'some point is a candidate of no later cycle), C09_hist_no_loss (a message of a committed report is a candidate of EVERY later '
-                  'cycle in which it is unexecuted, inside the window, of a live chain and ready - non-landing cannot lose it), '
-                  'C09_hist_executed_committed, C09_hist_reader_answer_legal / C09_hist_nonvacuous (non-vacuity). Correspondence of that model with '
-                  'long-lived plugins: sink C09_cycles (any memo / leftover state in the Plugin shows up as a model mismatch; cyc_ok turns it into '
-                  'a concrete violating history). '
-                  'System level (Model/ExecSys.v = Plugin.Outcome composed from the C07 / C08 models, Proofs/ExecSysP.v): C09_cycle_no_reexecution (a sequence number that every commit '
-                  'report agreed in the GetCommitReports round lists as executed is in no chain report of the cycle); C09_cycle_liveness - the liveness clause proved over one cycle from '
-                  'observation-level hypotheses: quorum f_dest+1 for the commit report and no conflicting report of its chain with one (<= f_dest deviating destination readers; F76 otherwise), quorum '
-                  'f_k+1 for each of its messages, no rival message with a quorum (<= f_k deviating observers), token '
-                  'data of the message ready with a quorum per slot and no observation filing more slots (F13e), fewer than f_dest+1 costly flags, not executed, nonce 0, root '
-                  'reproduced, every pending report well formed (a fact about the destination, not about observation lists), the report fits (F14) => all three rounds succeed and the '
-                  'message is in the execute report, whatever else the deviating oracles send; C09_cycle_liveness_nonvacuous (all hypotheses hold on a concrete cycle with a deviating '
-                  'oracle); C09_cycle_liveness_poisoned_unfixed_refuted (F75, repaired: before, two faulty oracles of seven, F = 2, filed a forged report of chain 1 under the key of a '
-                  'chain with f = 1 - no role check, threshold by filing key - and every later round failed; the repaired code refuses / does not agree it); '
-                  'C09_conflicting_versions_unfixed_refuted (F76, repaired: two versions of one report, each with f+1 reporters - one lagging honest reader plus one faulty oracle of four - '
-                  'were both pending and no round succeeded any more; the repaired getCommitReportsOutcome drops both for the cycle); replay on real plugins: VERIF_XS_PROBE=poison / split; '
-                  'C09_history_cycle (failed rounds in between commit nothing: '
-                  'the cycle theorems apply to every Filter round of every history). F55 stays outside (observations are inputs)',
-    'level_note': 'Trusted: Coq kernel, hand-written model, differential harness. No axioms.',
-    'modelled': 'computeRanges, groupByChainSelector, filterOutExecutedMessages, getPendingExecutedReports, and (for the cycle / liveness theorems) the report builder of Model/ExecReport.v; the reader is an input. '
-                'History level: getCommitReportsObservation (fetchFrom from the current clock, curse gate, known non-cursed sources), the pending filter, the candidate set of the Filter round under everything-fits conditions, selectReport\'s still-pending rule; the destination (off-ramp commit / execute semantics) is a step function',
+    'level_text': 'Proof: 51 closed Coq theorems. 29 property theorems. Function level, executed lists in closed form (runs): which reports stay pending and what they '
+                  'record for every layout and every legal executed-range answer (C09_filter_spec_reports, _executed, C09_pending_exact, C09_never_reexecuted_recorded), '
+                  'error iff overlapping ranges (C09_filter_error_iff), order independence, C09_compute_ranges, C09_group_by_chain; C09_never_reexecuted_cycle (with the '
+                  'C08 builder: a message executed when the cycle started is not eligible). History level (ExecCycles: state = destination content; events = tick, '
+                  'commit, executions visible, readiness, curses, roles, a cycle with what lands), by induction over EVERY event list: C09_hist_cycle_memoryless, '
+                  'C09_hist_filter_total, C09_hist_pending_exact, C09_hist_candidates, C09_hist_never_reexecuted, C09_hist_no_loss (an unexecuted, in-window, live, ready '
+                  'committed message is a candidate of EVERY later cycle whatever landed or failed to land), C09_hist_executed_committed. System level (ExecSys): '
+                  'C09_cycle_no_reexecution; C09_cycle_liveness - quorums f_dest+1 for the commit report, f_k+1 for message and token slots, nonce 0, not executed, '
+                  'report fits => all three rounds succeed and the message is in the execute report whatever deviating oracles send; the recorded findings F13e, F14, F55 '
+                  'and well-formedness of agreed reports are explicit hypotheses; C09_history_cycle extends it over failed rounds. Unrepaired code refuted: F15, F75 '
+                  '(poisoned key stalled every later round), F76 (two agreed versions of one report stalled GetMessages); known: F55 '
+                  "(C09_liveness_oversized_report_refuted). Judge soundness (22 C09_judge_*): for every sink the executable property accepts the model's output and "
+                  'implies the Prop-level clause. Correspondence, every run: computeRanges, filterOutExecutedMessages (incl. an exhaustive small enumeration), '
+                  'getPendingExecutedReports, Plugin.Observation at the 1 MiB observation limit, four-oracle histories, and four long-lived execute.Plugin instances per '
+                  'history over 5..12 full cycles on one simulated destination (C09_cycles) plus the ExecSys cycle sinks. Translation tie (7 theorems, C09_gen.v + '
+                  'C13_gen.v): computeRanges, SeqNumRange.Contains, PluginState.Next / IsValid. Partial: liveness is proved from observation-level quorums; that honest '
+                  'readers of one destination produce f+1 identical observations is not a theorem (Plugin.Observation is an input of ExecSys) - it is monitored on the '
+                  'real plugins against the harness ground truth (sys_live); filterOutExecutedMessages is refused by the translator.',
+    'level_note': 'Trusted: Coq kernel, hand-written model and theorem statements, differential harness, leaf translator. Specific: CommitReportsGTETimestamp / '
+                  'ExecutedMessageRanges answers are scripted oracles, the legal answers considered are those whose ranges sorted by start each begin at or after the '
+                  "previous end; sort.Slice on distinct start values; time.Now is not injectable (aged-clock histories shift the destination's timestamps, real-clock "
+                  'histories run as well); the destination is a MODEL (a root accepted only for a non-empty interval above everything committed for that source, only '
+                  'committed messages execute); Nonces / curse / home-chain answers are scripted. Assumed: sequence-number ranges end below 2^64-1 (the model returns '
+                  'Spin for the non-terminating corner, F19b / F71); cycle histories: honest oracles read the same destination within a cycle, everything fits the report '
+                  'limits, fewer than 1000 commit reports in the window. Known finding F55 stays reported as KNOWN-FINDING (class 1). No axioms.',
+    'technique': 'Coq theorems on three levels (closed-form pending filter; induction over destination histories in ExecCycles; three-round cycle composition ExecSys '
+                 'with the C07 / C08 models) over a hand-written Gallina model; differential correspondence with proved judge incl. four long-lived execute plugins over '
+                 'full cycles; computeRanges / PluginState.Next re-translated from Go',
+    'modelled': 'computeRanges, groupByChainSelector, filterOutExecutedMessages, getPendingExecutedReports, and (for the cycle / liveness theorems) the report builder '
+                'of Model/ExecReport.v; the reader is an input. History level: getCommitReportsObservation (fetchFrom from the current clock, curse gate, known '
+                "non-cursed sources), the pending filter, the candidate set of the Filter round under everything-fits conditions, selectReport's still-pending rule; "
+                'the destination (off-ramp commit / execute semantics) is a step function. System level (Model/ExecSys.v): Plugin.Outcome composed from the C07 merges, '
+                'the pending filter and the C08 report builder; Plugin.Observation is an input there. Translated from source per run: execute.computeRanges '
+                '(C09_gen.v), SeqNumRange.Contains, PluginState.Next / IsValid (C13_gen.v); filterOutExecutedMessages is refused by the translator (nested index-moving '
+                'loops, in-place slice updates, a counting loop over wire-supplied uint64 bounds) and stays hand-modelled',
 }
